@@ -296,8 +296,12 @@ fn compound_command_program_header(
         // Check if the command starts with a colon.
         let (i1, root_command) = optional(header_separator)(input)?;
 
-        // If true, we start with the root node.
-        let mut node = if root_command.is_some() { root } else { header };
+        // If true, we start with the root node and the current path is reset to
+        // the root as well.
+        if root_command.is_some() {
+            header = root;
+        }
+        let mut node = header;
 
         let (i2, res) = program_mnemonic(i1)?;
         let name = str::from_utf8(res)?;
